@@ -476,3 +476,66 @@ def r14_9(ctx):
             ctx.require(p.terminal == "return" and got == [0, 2], f"gap:v{v}", f"v{v} read_link_keys over slots [key, empty, key] yields the keys of slots {got} "
                         f"({p.terminal} {p.value if p.terminal == 'raise' else ''}); must be [0, 2]: an empty slot is skipped, not the end of the table", func=m,
                         trace=p.trace(16))
+
+
+@rule("R14.10", ["C14"], "T-FLOW", floor=11)
+def r14_10(ctx):
+    """Every link key of the backup reaches the NCP, in every version, through the application *and* the version's handler
+    as one program: write_network_info is evaluated with a key table of two keys (each with a partner address) and the
+    very object it hands to write_link_keys - a list, a filtered copy, a generator - is consumed by that version's
+    write_link_keys; the NCP must receive exactly one key-table write per key, in order, each carrying that key's partner
+    address and key data (an iterable that the handler walks twice, or a filter that drops keys with a partner, loses keys
+    silently: the restore still reports success)."""
+    repo = ctx.repo
+    f = repo.func(f"{APP}:ControllerApplication.write_network_info")
+    ctx.fn(f)
+    es = repo.cls(NAMED, "EmberStatus").members()
+    sl = repo.cls(NAMED, "sl_Status").members()
+    for version in VERSIONS:
+        hcls = repo.cls(f"bellows.ezsp.v{version}", f"EZSPv{version}")
+        wl = hcls.method("write_link_keys")
+        ok_status = sl["OK"] if version >= 14 else es["SUCCESS"]
+        got = []
+
+        def import_model(px, t, a, k, fr):
+            got.append((t.split(".")[-1], dict(k), list(a)))
+            return (ok_status,)
+
+        def write_link_keys_model(px, t, a, k, fr):
+            handler = self_obj(hcls, {}, tag="handler")
+            return px.call_function(wl, handler, list(a), dict(k), fr)
+
+        models = [wrap("t.KeyData"), wrap("t.EUI64"), wrap("t.Channels"), ("util.zha_security", lambda px, t, a, k, fr: Sym("isc")),
+                  ("os.urandom", lambda px, t, a, k, fr: b"\x01" * 16), ("*.write_link_keys", write_link_keys_model),
+                  ("self.importLinkKey", import_model), ("self.addOrUpdateKeyTableEntry", import_model), ("self.setKeyTableEntry", import_model)]
+        px = PX(repo, models=models, inline=same_class(stop=("reset_network_info", "_reset", "_ensure_network_running")), max_paths=5000)
+
+        def setup():
+            got.clear()
+            keys = [Obj(TypeRef("Key"), {"key": Sym(f"keydata{i}"), "partner_ieee": Obj(TypeRef("EUI64"), {}, tag=f"partner{i}"), "tx_counter": 0, "rx_counter": 0,
+                                         "seq": 0}, tag=f"key{i}") for i in (1, 2)]
+            ni = Obj(TypeRef("NetworkInfo"), {"stack_specific": {"ezsp": {"hashed_tclk": "aa"}}, "network_key": Obj(TypeRef("Key"), {}, tag="ni.network_key"),
+                                              "tc_link_key": Obj(TypeRef("Key"), {}, tag="ni.tc_link_key"), "children": [], "nwk_addresses": {},
+                                              "key_table": keys}, tag="ni")
+            ez = Obj(TypeRef("EZSP"), {"ezsp_version": version}, tag="self._ezsp")
+            return self_obj(app_cls(ctx), {"_ezsp": ez}), {"network_info": ni, "node_info": Obj(TypeRef("NodeInfo"), {}, tag="node")}
+
+        done = 0
+        for p in px.explore(f, setup):
+            if p.terminal != "return":
+                continue
+            done += 1
+            ctx.paths += 1
+            # the events of this path (got is shared between paths: rebuild from the trace)
+            cmds = [e for e in p.events if e.kind == "await" and e.what.split(".")[-1] in ("importLinkKey", "addOrUpdateKeyTableEntry", "setKeyTableEntry")]
+            seen = []
+            for e in cmds:
+                vals = list(e.args) + list(e.kwargs.values())
+                partner = next((getattr(v, "tag", None) for v in vals if str(getattr(v, "tag", "")).startswith("partner")), None)
+                key = next((getattr(v, "tag", None) for v in vals if str(getattr(v, "tag", "")).startswith("keydata")), None)
+                seen.append((partner, key))
+            want = [("partner1", "keydata1"), ("partner2", "keydata2")]
+            ctx.require(seen == want, f"link-keys:v{version}", f"v{version}: a backup with two link keys {want} leads to the key-table writes {seen} "
+                        f"({[e.what.split('.')[-1] for e in cmds]}); every key must be written once, in order, with its own partner and key data",
+                        func=wl, trace=p.trace(30))
+        ctx.anchor(done >= 1, f"write_network_info completes (v{version})")
